@@ -209,7 +209,7 @@ func DescribeDatagramCID(data []byte, cidLen int) string {
 		sb.WriteString(")")
 	}
 	if err != nil {
-		fmt.Fprintf(&sb, " !%v", err)
+		fmt.Fprintf(&sb, " !%v hex=%x", err, data[:min(len(data), 24)])
 	}
 	sb.WriteString("]")
 
